@@ -25,15 +25,18 @@ __CPROVER_assigns();
 
 CO_OBJ *CODictFind(CO_DICT *cod, uint32_t key)
 __CPROVER_requires(cod != NULL && __CPROVER_r_ok(cod, sizeof(CO_DICT)) && WF_DICT_SHAPE(cod))
-/* a result is an entry of the configured range (never the end marker) with exactly that index/sub */
+/* a result is an entry of the configured range (never the end marker) with exactly that index/sub.
+ * __CPROVER_pointer_in_range_dfcc is the pointer predicate that, where this contract REPLACES a
+ * call, assigns the returned pointer (a pointer that is merely assumed equal to something is not
+ * resolved by symex, see DESIGN 3.2) */
 __CPROVER_ensures(__CPROVER_return_value != NULL ==>
-    (__CPROVER_same_object(__CPROVER_return_value, G_DROOT) &&
-     __CPROVER_POINTER_OFFSET(__CPROVER_return_value) % sizeof(CO_OBJ) == 0 &&
-     __CPROVER_POINTER_OFFSET(__CPROVER_return_value) < (size_t)G_DNUM * sizeof(CO_OBJ) &&
+    (G_DNUM > 0 && __CPROVER_pointer_in_range_dfcc(G_DROOT, __CPROVER_return_value, G_DROOT + (G_DNUM - 1)) &&
      DEV(__CPROVER_return_value->Key) == DEV(key)))
 /* NULL only if no configured entry has that index/sub (ghost index G_K)
  * (index 0000h/sub 0 names no object: WF dictionaries have no such entry) */
 __CPROVER_ensures((__CPROVER_return_value == NULL && G_K < G_DNUM && DEV(key) != 0) ==> DEV(G_DROOT[G_K].Key) != DEV(key))
+/* keys are unique: if entry G_K has that index/sub, it is the one returned */
+__CPROVER_ensures((G_K < G_DNUM && DEV(key) != 0 && DEV(G_DROOT[G_K].Key) == DEV(key)) ==> __CPROVER_return_value == G_DROOT + G_K)
 __CPROVER_assigns();
 
 /* ---- loop contracts (injected at the loop by the driver, keyed function.ordinal) ---- */
@@ -92,14 +95,15 @@ __CPROVER_assigns(G_INIT_CNT, G_INIT_ALL);
  * with the caller's buffer and the caller's length, unchanged (argument expectation ghosts of obj.h:
  * the callee's requires fails if len is narrowed or another buffer is passed) ---- */
 #include "obj.h"
-#define DICT_BUF_CONTRACT(NAME, CNT) \
+#define DICT_BUF_CONTRACT(NAME, CNT, BOK) \
 CO_ERR NAME(CO_DICT *cod, uint32_t key, uint8_t *buf, uint32_t len) \
+__CPROVER_requires(buf == NULL || BOK(buf, len)) \
 __CPROVER_requires(cod == &V_NODE.Dict && WF_DICT_SHAPE(cod) && cod->Node == &V_NODE) \
 __CPROVER_requires(G_EXP_ON && G_EXP_SIZE == len && G_EXP_BUF == buf && G_EXP_PARA == 0) \
 __CPROVER_ensures(buf == NULL ==> __CPROVER_return_value == CO_ERR_BAD_ARG) \
 /* (which entry is accessed / NOT_FOUND exactness: CODictFind's contract, groups dict_find and dict_typed_*) */ \
 __CPROVER_ensures(CNT == __CPROVER_old(CNT) || CNT == __CPROVER_old(CNT) + 1)
-DICT_BUF_CONTRACT(CODictRdBuffer, G_READ_N)
-__CPROVER_assigns(G_TYPE_STATE, G_READ_N, G_RESET_N; buf != NULL: __CPROVER_object_whole(buf));
-DICT_BUF_CONTRACT(CODictWrBuffer, G_WRITE_N)
-__CPROVER_assigns(G_TYPE_STATE, G_WRITE_N, G_RESET_N);
+DICT_BUF_CONTRACT(CODictRdBuffer, G_READ_N, __CPROVER_w_ok)
+__CPROVER_assigns(G_TYPE_STATE, G_READ_N, G_RESET_N, V_NODE.Sdo[0].Abort, V_NODE.Sdo[CO_SSDO_N - 1].Abort; buf != NULL: __CPROVER_object_whole(buf));
+DICT_BUF_CONTRACT(CODictWrBuffer, G_WRITE_N, __CPROVER_r_ok)
+__CPROVER_assigns(G_TYPE_STATE, G_WRITE_N, G_RESET_N, V_NODE.Sdo[0].Abort, V_NODE.Sdo[CO_SSDO_N - 1].Abort);
